@@ -34,7 +34,6 @@ import (
 	"github.com/thought-machine/please/src/core"
 
 	"verifharness/cachelib"
-	"verifharness/iplib"
 	"verifharness/lib"
 )
 
@@ -136,7 +135,7 @@ func TestC12Child(t *testing.T) {
 	if !lib.IsChild() {
 		return
 	}
-	iplib.Quiet()
+	cachelib.Quiet()
 	var j job
 	if err := readJSON(os.Getenv("VERIF_C12_JOB"), &j); err != nil {
 		fmt.Println("cannot read job:", err)
@@ -553,6 +552,21 @@ func crashCase(r *lib.Run, base string, idx int, rng *rand.Rand) {
 	for maxNodes := r.Pick(14, 40); len(set.Files) > maxNodes; {
 		set = cachelib.GenOutSet(rng, true, false)
 	}
+	// The richest directory output goes last: a store that dies inside it leaves every declared output
+	// present, so only the tree comparison can tell a partial entry from a complete one.
+	richest, most := 0, -1
+	for i, out := range set.Outs {
+		c := 0
+		for p := range set.Files {
+			if strings.HasPrefix(p, out+"/") {
+				c++
+			}
+		}
+		if c > most {
+			richest, most = i, c
+		}
+	}
+	set.Outs[richest], set.Outs[len(set.Outs)-1] = set.Outs[len(set.Outs)-1], set.Outs[richest]
 	dir := filepath.Join(base, fmt.Sprintf("crash%d", idx))
 	os.MkdirAll(dir, 0o755)
 	label := fmt.Sprintf("//cr%d:t", idx)
@@ -958,7 +972,7 @@ func TestC12(t *testing.T) {
 	if lib.IsChild() {
 		return
 	}
-	iplib.Quiet()
+	cachelib.Quiet()
 	r := lib.Start("C12")
 	defer lib.End(t, r)
 	r.Level = "fault_enumeration"
